@@ -148,8 +148,13 @@ def run(ctx):
     crosscheck_bad = 0
     for i, v in enumerate(vals):
         for jm in (True, False):
+            if i % 2 == 0:
+                str(printers[jm](v))          # the same printer object is used for a coloured rendering first
             res = printers[jm](v, no_color=True)
             text = res.plain_text()
+            if '\x1b' in str(res):
+                ctx.violation({'value': v, 'json': jm}, 'no_color output contains an escape character')
+                continue
             lines = '\n'.join(ln.plain_text() for ln in printers[jm](v, no_color=True))
             if lines != text:
                 ctx.violation({'value': v, 'json': jm}, 'line iteration gives different text than the whole result')
@@ -210,6 +215,10 @@ def run(ctx):
 def replay(ctx, case):
     from ak.ppobj import PrettyPrinter
     v, jm = case['value'], case['json']
+    ppr = PrettyPrinter(fmt_json=jm)
+    str(ppr(v))
+    if '\x1b' in str(ppr(v, no_color=True)):
+        return 'no_color output contains an escape character'
     text = PrettyPrinter(fmt_json=jm)(v, no_color=True).plain_text()
     lines = '\n'.join(ln.plain_text() for ln in PrettyPrinter(fmt_json=jm)(v, no_color=True))
     if lines != text:
